@@ -54,6 +54,8 @@ from typing import Any, Dict, List, Optional, Tuple
 from . import common as C
 
 NATIVE = ["int32", "double", "uint8", "int16", "char", "float", "uint64", "unsigned int", "long long"]
+# the names of the tables the four back ends file definitions under (and the prefixes they put in front of names)
+TABLE_PREFIXES = ["hash_", "HASH_", "MT_", "MDF_", "MID_", "HID_", "RTMA_", "defines_", "typedefs_", "constants_", "SDF_"]
 
 
 def _hex(s: str) -> str:
@@ -831,12 +833,14 @@ def outputs_check(tree: Dict[str, Any], names: List[str]) -> Dict[str, Any]:
         jtext = (outd / "gen_defs.js").read_text()
         mtext = "\n".join(q.read_text() for q in outd.rglob("*.m"))
         for n in names:
-            m = re.search(r"#define\s+HASH_%s\s+0x([0-9a-fA-F]+)\s" % re.escape(n), ctext)
-            res[n]["c"] = int(m.group(1), 16) if m else None
-            m = re.search(r'RTMA\.HASH\.%s\s*=\s*"([0-9a-fA-F]+)"' % re.escape(n), jtext)
-            res[n]["js"] = int(m.group(1), 16) if m else None
-            m = re.search(r'\.hash\.%s\s*=\s*"([0-9a-fA-F]+)"' % re.escape(n), mtext)
-            res[n]["m"] = int(m.group(1), 16) if m else None
+            # what the entry under the message's own name holds once the file has been read: in JavaScript and MATLAB a
+            # later assignment to the same name overwrites an earlier one; two #defines of one macro are an error in C
+            ms = re.findall(r"#define\s+HASH_%s\s+0x([0-9a-fA-F]+)\s" % re.escape(n), ctext)
+            res[n]["c"] = int(ms[-1], 16) if ms and len(set(ms)) == 1 else None
+            ms = re.findall(r'RTMA\.HASH\.%s\s*=\s*"([0-9a-fA-F]+)"' % re.escape(n), jtext)
+            res[n]["js"] = int(ms[-1], 16) if ms else None
+            ms = re.findall(r'\.hash\.%s\s*=\s*"([0-9a-fA-F]+)"' % re.escape(n), mtext)
+            res[n]["m"] = int(ms[-1], 16) if ms else None
         r = subprocess.run([sys.executable, "-c", _SENDER, str(C.REPO / "src"), str(outd / "gen_defs.py"), json.dumps(names)],
                            capture_output=True, text=True, timeout=300, cwd=str(base))
         if r.returncode != 0:
